@@ -357,11 +357,13 @@ def plan_c11(rng, pairs):
     cases = []
     for idx, (fam, a, b) in enumerate(pairs):
         a, b = closed(a), closed(b)
-        exact = fam in gen.EXACT_FAMILIES
+        # a third operand from another pair of the family and second-level operations: exact only where every
+        # edge is axis-parallel
+        exact = fam in gen.CLOSED_EXACT_FAMILIES
         c = Case("C11-%s-%d" % (fam, idx), fam)
         fam3, c3, _ = base_pairs(rng, [fam if fam in gen.FAMILIES else 'g1'], 1)[0]
         c3 = closed(c3)
-        tol = tol_for(fam, a + c3, b)
+        tol = tol_for(fam if exact else "g3", a + c3, b)
         t = num.enc(tol)
         # auxiliary runs naming the operands
         ka = c.run(bool_req("f64", "U", False, BUDGET, "MM", a, b))       # A<ka>, B<ka>
